@@ -192,7 +192,15 @@ class ProgressivelyTerminalDecider(BaseDecider):
         grammar_weights = self.grammar.get_weights()
         weights = [w(alt) * grammar_weights.get(alt, 1.0) for alt in alternatives]
         if not any(weights):
-            weights = [grammar_weights.get(alt, 1.0) for alt in alternatives]
+            # Every depth factor is zero: head for a terminal, so that creation ends whatever the random source.
+            usable = [alt for alt in alternatives if grammar_weights.get(alt, 1.0) > 0] or alternatives
+            closest = min(self.grammar.get_distance_to_terminal(alt) for alt in usable)
+            weights = [
+                (grammar_weights.get(alt, 1.0) or 1.0)
+                if alt in usable and self.grammar.get_distance_to_terminal(alt) == closest
+                else 0
+                for alt in alternatives
+            ]
         return self.random.choice_weighted(alternatives, weights)
 
 
